@@ -1,6 +1,8 @@
 package main
 
 import (
+	"math/big"
+	"regexp"
 	"encoding/hex"
 	"encoding/json"
 	"fmt"
@@ -88,4 +90,40 @@ func init() {
 		},
 	})
 	_ = fmt.Sprint
+	replayDrivers = append(replayDrivers, replayDriver{
+		match: func(n string) bool { return strings.HasPrefix(n, "certgen.decodeIPV4AddressChoice#") },
+		run: func(r *Report, o *Obligation, sr *SolveResult) ReplayResult {
+			m := parseModel(sr.Model)
+			v := m["p_encodedBlock"]
+			// (mk_S_BitString_n (mk_slice base off len cap) bitlength)
+			nums := intRe.FindAllString(strings.ReplaceAll(v, "(- ", "(-"), -1)
+			if len(nums) < 5 {
+				return ReplayResult{Summary: "cannot read the BitString from the model: " + v}
+			}
+			in := map[string]string{"bitlength": strings.Trim(nums[len(nums)-1], "()"), "nbytes": strings.Trim(nums[len(nums)-3], "()")}
+			out, conf := goReplay(r, "lib/certgen", "certgen_replay_test.go", "TestVerifReplayDecodeIPV4", in)
+			return ReplayResult{Confirmed: conf, Summary: replaySummary(out), Inputs: in, Output: truncate(out, 4000), Driver: "TestVerifReplayDecodeIPV4"}
+		},
+	})
 }
+
+func init() {
+	replayDrivers = append(replayDrivers, replayDriver{
+		match: func(n string) bool { return strings.HasPrefix(n, "certgen.GenSSHCertFileString#C03") },
+		run: func(r *Report, o *Obligation, sr *SolveResult) ReplayResult {
+			m := parseModel(sr.Model)
+			bv, ok := smtBVToBig(m["p_duration"])
+			if !ok {
+				return ReplayResult{Summary: "model has no value for duration"}
+			}
+			if bv.Bit(63) == 1 {
+				bv.Sub(bv, new(big.Int).Lsh(big.NewInt(1), 64))
+			}
+			in := map[string]string{"duration_ns": bv.String()}
+			out, conf := goReplay(r, "lib/certgen", "certgen_replay_test.go", "TestVerifReplayGenSSHCertWindow", in)
+			return ReplayResult{Confirmed: conf, Summary: replaySummary(out), Inputs: in, Output: truncate(out, 4000), Driver: "TestVerifReplayGenSSHCertWindow"}
+		},
+	})
+}
+
+var intRe = regexp.MustCompile(`\(?-?[0-9]+\)?`)
